@@ -66,6 +66,39 @@ func Family(quick bool) []*wm.World {
 			}
 		}
 	}
+	// two external ranges in one direction of one workload, each with its own multi-protocol connection: between members of
+	// this group the ranges change in ways whose (before, after) texts differ only in where they are cut ("SCTP 1,TCP 2" ->
+	// "UDP 3" next to "SCTP 1" -> "TCP 2,UDP 3"), a range keeps its connection while its neighbour changes, and a connection
+	// moves from one range to another
+	{
+		sctp1 := wm.NPPort{HasPort: true, Num: 1, Proto: "SCTP"}
+		tcp2 := wm.NPPort{HasPort: true, Num: 2}
+		udp3 := wm.NPPort{HasPort: true, Num: 3, Proto: "UDP"}
+		type rp struct {
+			cidr  string
+			ports []wm.NPPort
+		}
+		for _, rules := range [][]rp{
+			{{"10.0.0.0/8", []wm.NPPort{sctp1, tcp2}}, {"20.0.0.0/8", []wm.NPPort{sctp1}}},
+			{{"10.0.0.0/8", []wm.NPPort{udp3}}, {"20.0.0.0/8", []wm.NPPort{tcp2, udp3}}},
+			{{"10.0.0.0/8", []wm.NPPort{tcp2}}, {"20.0.0.0/8", []wm.NPPort{tcp2}}},
+			{{"10.0.0.0/8", []wm.NPPort{tcp2}}},
+			{{"30.0.0.0/8", []wm.NPPort{tcp2}}},
+		} {
+			for _, dir := range []string{"Ingress", "Egress"} {
+				np := wm.NP{NS: "ns1", Name: "p", PodSel: wm.Sel{ML: map[string]string{"app": "a"}}, Types: []string{dir}}
+				for _, r := range rules {
+					rl := wm.NPRule{Peers: []wm.NPPeer{{CIDR: r.cidr}}, Ports: r.ports}
+					if dir == "Ingress" {
+						np.Ingress = append(np.Ingress, rl)
+					} else {
+						np.Egress = append(np.Egress, rl)
+					}
+				}
+				res = append(res, &wm.World{WLs: topos[0], NPs: []wm.NP{np}})
+			}
+		}
+	}
 	// manifest sets without any workload (a Namespace and a policy only; a Namespace only)
 	res = append(res, &wm.World{NSs: []wm.NS{{Name: "ns1", Labels: map[string]string{"team": "a"}, HasObj: true}}, NPs: []wm.NP{{NS: "ns1", Name: "p", PodSel: wm.Sel{}, Types: []string{"Ingress"}}}},
 		&wm.World{NSs: []wm.NS{{Name: "ns1", Labels: map[string]string{"team": "a"}, HasObj: true}}})
